@@ -4,6 +4,33 @@ import core
 DISC = ["connect", "discover", "disconnect"]
 
 CORE = {
+    "C01": {
+        "checked": ["out", "panic", "dupout", "rdata", "data"],
+        "assumptions": [
+            "the datagram is well formed: one command, classifier present, classifier and payload consistent (a result carries resultData, a request does not); the rest belongs to C05",
+            "the source feature is an announced feature of a connected peer",
+            "discovery replies/notifications are the inputs discover/entadd/entrem; subscription and binding calls are the inputs sub/bind/unsub/unbind",
+            "whether a reply/notify addressed to a local server-role feature is accepted is not determined by any property; the specification follows the code (accepted)",
+            "only replies and results are compared (the read request that follows a rejected notify is an originated request, followed not checked)",
+        ],
+        "quick": {
+            "mc": [{"acts": DISC + ["recv", "sub", "bind", "setdata"], "maxlen": 5},
+                   {"acts": ["recv", "bind"], "rich": ["recv"], "maxlen": 2, "prefix": "PrefixP1"}],
+            "gen": [{"acts": ["recv"], "rich": ["recv"], "maxlen": 1, "prefix": "PrefixP1P2"},
+                    {"acts": ["recv", "sub", "bind", "setdata"], "maxlen": 3, "prefix": "PrefixP1"},
+                    {"acts": ["recv", "bind", "entrem"], "tiny": ["bind"], "maxlen": 2, "prefix": "PrefixP1P2"}],
+            "sim": [{"acts": DISC + ["recv", "sub", "bind", "unbind", "setdata", "entrem", "entadd", "read", "write", "listsubs"], "rich": ["read"], "maxlen": 25, "num": 200}],
+            "cap": 40000,
+        },
+        "thorough": {
+            "mc": [{"acts": DISC + ["recv", "sub", "bind", "setdata"], "maxlen": 6},
+                   {"acts": ["recv", "bind", "sub"], "rich": ["recv"], "maxlen": 3, "prefix": "PrefixP1"}],
+            "gen": [{"acts": ["recv", "bind", "sub"], "tiny": ["bind", "sub"], "rich": ["recv"], "maxlen": 2, "prefix": "PrefixP1P2"},
+                    {"acts": ["recv", "sub", "bind", "setdata", "entrem", "disconnect"], "maxlen": 4, "prefix": "PrefixP1P2"}],
+            "sim": [{"acts": DISC + ["recv", "sub", "bind", "unbind", "setdata", "entrem", "entadd", "read", "write", "listsubs"], "rich": ["read", "recv"], "maxlen": 40, "num": 3000}],
+            "cap": 400000,
+        },
+    },
     "C09": {
         "checked": ["binds", "out", "ev", "ret", "panic", "dupout", "dupev", "ids"],
         "assumptions": [
